@@ -9,6 +9,8 @@ import DDProofs.MddProofs
 import DDProofs.MddConv
 import DDProofs.MddGcReach
 import DDProofs.MddFuel
+import DDProofs.MddConvFull
+import DDProps.C07
 import DDProofs.Inv
 namespace DD
 
@@ -130,67 +132,90 @@ holds, `ext`), the collection keeps the invariant and the counts exact, only rem
 (never creates or changes one), keeps every node the user holds, leaves — when called
 without `roots` — only nodes with a positive count, keeps the meaning of every surviving
 reference, and empties the computed table -/
-theorem C15_gc_spec (m : MddMgr) (ext : Nat → Nat) (h : MInv m) (hx : RefExact m ext)
+theorem C15_gc_spec (m : MddMgr) (ext : Nat → Nat) (h : MInv m) (hx : MRefExact m ext)
     (roots : Option (List Int)) (m' : MddMgr) (hr : mCollectGarbage roots m = (.ok (), m')) :
     GcOK m ext roots.isNone m' :=
   mddGc_spec m ext h hx roots m' hr
 
 /-! ### `bdd_to_mdd` -/
 
-/-- BDD denotation by variable NAME (levels change when `bdd_to_mdd` reorders) -/
-def denName (t : Tbl) (u : Int) (β : String → Bool) : Bool :=
-  den t u (fun lvl => match t.l2v[lvl]? with
-    | some v => β v
-    | none => false)
-
-/-- the bit assignment that encodes an integer assignment: bit `k` of the value of the integer
-variable that lists the bit at position `k` (first listed bit least significant) -/
-def bitsOfInts (dvars : List MVar) (α : MAsg) : String → Bool := fun bit =>
-  match dvars.find? (fun d => d.bits.contains bit) with
-  | none => false
-  | some d => (α d.level >>> d.bits.idxOf bit) % 2 == 1
-
-/-- number of edges of the BDD into node `u` -/
-def bddIndeg (t : Tbl) (u : Nat) : Nat :=
-  t.succ.foldl (fun acc _ n =>
-    acc + (if n.lo.natAbs = u then 1 else 0) + (if n.hi.natAbs = u then 1 else 0)) 0
-
-/-- `dvars` is a proper description: distinct names, levels `0..n-1`, non-empty bit lists,
-`len = 2 ** len(bitnames)`, and the bit lists partition the declared BDD variables -/
-structure DvarsOK (mb : Mgr) (dvars : List MVar) : Prop where
-  names : (dvars.map (·.name)).Nodup
-  levels : (dvars.map (·.level)).Perm (List.range dvars.length)
-  len : ∀ d ∈ dvars, d.bits ≠ [] ∧ d.len = 2 ^ d.bits.length
-  bits : (dvars.flatMap (·.bits)).Perm mb.tbl.vars.keys
-
-/-- the user holds a reference to node `u`: its count exceeds what the diagram accounts for
-(in-degree, plus the permanent reference of the terminal) -/
-def BddHeld (mb : Mgr) (u : Nat) : Prop :=
-  ∃ c, mb.ref[u]? = some c ∧ bddIndeg mb.tbl u + (if u = 1 then 1 else 0) < c
-
-/-- C15, conversion part, at full strength: for a BDD manager satisfying its invariant with
-sound counts and a proper `dvars`, whenever `bdd_to_mdd` returns `(mdd, umap)`
-(for any recorded iteration orders):
+/-- C15, conversion part, at full strength: for a BDD manager that satisfies the reordering
+invariant `ReorderInv ext mb` (manager invariant, name maps inverse bijections, exact counts
+w.r.t. the ledger `ext` of the references the user holds, every root held) and a proper `dvars`
+(`DvarsOK`: integer variables at the levels `0..n-1`, bit lists partitioning the declared BDD
+variables), whenever `bdd_to_mdd` returns `(mdd, umap)` — for any recorded iteration orders of
+swaps and of `bdd.levels()` — `B2MOK` holds:
 * the MDD manager satisfies its invariant and has the variables `dvars`;
-* every `umap` entry `u ↦ r` is an MDD reference whose value on each valid integer assignment
-  equals the BDD's value of `u` on the encoded bit assignment (so `flip(umap[|u|], u)` is right
-  for complemented BDD references too);
-* every BDD node the user holds is in `umap`;
-* the BDD manager keeps its invariant, and every held reference is still a node denoting the
-  same function of the variable names. -/
+* for every `umap` entry `u ↦ r` and every reference `s` to node `u` (complemented or not),
+  `flip(r, s)` takes on every valid integer assignment `α` the value of `s` on the encoded bits
+  (`bitsOfInts dvars α`: bit `k` of `α[var]` for the `k`-th listed bit — first listed bit least
+  significant);
+* every BDD node the user holds, and the terminal, is a key of `umap`;
+* the BDD manager keeps its invariant, the bits are in zones, and every held reference still is a
+  node denoting the same function of the variable names. -/
 def bddToMdd_statement : Prop :=
-  ∀ (mb : Mgr) (dvars : List MVar) (lev : Option (List Nat)) (out : B2MOut) (mb' : Mgr),
-    Inv mb → (∀ u c, mb.ref[u]? = some c → bddIndeg mb.tbl u ≤ c) → DvarsOK mb dvars →
-    bddToMdd dvars lev mb = (.ok out, mb') →
-    MInv out.mdd ∧ out.mdd.tbl.vars = dvars ∧ Inv mb' ∧
-    (∀ (u : Nat) (r : Int), out.umap.lookup u = some r →
-      mb'.tbl.Mem (u : Int) ∧ out.mdd.tbl.Mem r ∧
-      ∀ (s : Int), s.natAbs = u → ∀ α, MValid out.mdd.tbl α →
-        denM out.mdd.tbl (flip r s) α = denName mb'.tbl s (bitsOfInts dvars α)) ∧
-    (∀ u, mb'.tbl.Mem ((u : Nat) : Int) → BddHeld mb' u → (out.umap.lookup u).isSome = true) ∧
-    (∀ u, mb.tbl.Mem ((u : Nat) : Int) → BddHeld mb u →
-      mb'.tbl.Mem ((u : Nat) : Int) ∧ BddHeld mb' u ∧
-      ∀ (s : Int), s.natAbs = u → ∀ β, denName mb'.tbl s β = denName mb.tbl s β)
+  ∀ (ext : Nat → Nat) (mb : Mgr) (dvars : List MVar) (lev : Option (List Nat)) (out : B2MOut) (mb' : Mgr),
+    ReorderInv ext mb → DvarsOK mb.tbl dvars →
+    bddToMdd dvars lev mb = (.ok out, mb') → B2MOK ext dvars mb out mb'
+
+/-- C15, conversion part, what is proved: the full statement for managers in which dynamic
+reordering is not enabled (`_last_len is None`, the default; the specification of `cofactor`,
+C04, is proved under that hypothesis).  Built from `collectGarbage_spec` (C06),
+`sortToOrder_exact` (C07: `reorder(bdd, order)` reaches exactly the requested order and keeps
+every held reference's function of the names), `cofactor_spec` (C04), canonicity ("a node depends
+on its own level": the cofactor w.r.t. all bits of a zone lies in a later zone), and the MDD side
+(`find_or_add` specification). -/
+theorem C15_bddToMdd_partial_off (ext : Nat → Nat) (mb : Mgr) (h : ReorderInv ext mb)
+    (hoff : mb.lastLen = none) (dvars : List MVar) (hd : DvarsOK mb.tbl dvars)
+    (lev : Option (List Nat)) (out : B2MOut) (mb' : Mgr)
+    (hr : bddToMdd dvars lev mb = (.ok out, mb')) : B2MOK ext dvars mb out mb' :=
+  bddToMdd_spec ext mb h hoff dvars hd lev out mb' hr
+
+/-- the same, spelled out for one held reference `s` (either sign): it has an image, and
+`flip(umap[|s|], s)` evaluates on every valid integer assignment to what the BDD reference — as
+it was BEFORE the call, by variable names — evaluates to on the encoded bits -/
+theorem C15_bddToMdd_held (ext : Nat → Nat) (mb : Mgr) (h : ReorderInv ext mb)
+    (hoff : mb.lastLen = none) (dvars : List MVar) (hd : DvarsOK mb.tbl dvars)
+    (lev : Option (List Nat)) (out : B2MOut) (mb' : Mgr)
+    (hr : bddToMdd dvars lev mb = (.ok out, mb')) (s : Int) (hs : 0 < ext s.natAbs) :
+    ∃ r, out.umap.lookup s.natAbs = some r ∧ out.mdd.tbl.Mem r ∧
+      ∀ α, MValid out.mdd.tbl α →
+        denM out.mdd.tbl (flip r s) α = denN mb.tbl s (bitsOfInts dvars α) := by
+  have B := bddToMdd_spec ext mb h hoff dvars hd lev out mb' hr
+  obtain ⟨r, hr'⟩ := Option.isSome_iff_exists.mp (B.mapped.2 s.natAbs hs)
+  obtain ⟨hmu, hmr, hden⟩ := B.umap s.natAbs r hr'
+  refine ⟨r, hr', hmr, ?_⟩
+  intro α hα
+  rw [hden s rfl α hα]
+  -- the BDD function is intact
+  obtain ⟨hm', hsame⟩ := B.held s.natAbs hs
+  have hmem0 : mb.tbl.Mem ((s.natAbs : Nat) : Int) := h.held_mem hs
+  have hW := h.inv.wf.toWF
+  have hW' := B.bdd.wf.toWF
+  by_cases hneg : s < 0
+  · have hsu : s = -((s.natAbs : Nat) : Int) := by omega
+    rw [hsu]
+    unfold denN
+    rw [den_neg mb'.tbl hW' _ _ hm', den_neg mb.tbl hW _ _ hmem0]
+    have := hsame (bitsOfInts dvars α)
+    unfold denN at this
+    rw [this]
+  · have hsu : s = ((s.natAbs : Nat) : Int) := by omega
+    rw [hsu]
+    exact hsame _
+
+/-- the hypotheses of the conversion theorems are satisfiable by a non-trivial manager: the
+example manager of C06/C07 (variables `a`, `b`; nodes 2 = `a`, 3 = `b`, 4 = `a ∧ b` held) with
+one integer variable `x` over the bits `b` (least significant) and `a` — the requested zone
+order differs from the current variable order, so the call reorders.  (The run itself cannot be
+evaluated in the kernel — the memo of `cofactorF` is a `HashMap` —; successful runs are what the
+correspondence check executes.) -/
+example : ReorderInv exExt exM ∧ exM.lastLen = none ∧ 0 < exExt 4 ∧
+    DvarsOK exM.tbl [⟨"x", 0, 4, ["b", "a"]⟩] := by
+  refine ⟨exM_reorderInv, by decide, by decide, ⟨List.Perm.refl _, ?_⟩⟩
+  have hk : exM.tbl.vars.keys = ["a", "b"] := by decide
+  rw [hk]
+  exact List.Perm.swap _ _ _
 
 /-- C15, conversion part, the half that is proved: the main loop of `bdd_to_mdd`
 (`b2mLoop`: per kept BDD node, `cofactor` per integer value, edges mapped through `umap`,
@@ -199,7 +224,7 @@ entries denote the intended function `S u` — for ANY intended semantics `S` of
 as functions of integer assignments — provided the BDD side delivers, at every iteration,
 `BddSideOK`: the `i`-th successor is the `umap` image of a reference in a later zone that
 agrees with `u` where the integer variable equals `i`.  (Discharging that hypothesis for
-`S u α = denName mb u (bitsOfInts dvars α)` needs the specifications of `reorder` and
+`S u α = denByName mb u (bitsOfInts dvars α)` needs the specifications of `reorder` and
 `cofactor` on the BDD side: C07/C04.) -/
 theorem C15_bddToMdd_partial (S : Int → MAsg → Bool) (L : Nat → Nat)
     (hSneg : ∀ x α, x ≠ 0 → S (-x) α = !S x α)
@@ -289,7 +314,7 @@ below the level (documented precondition), `ite`/`apply` on nodes of the manager
 and for any recorded `_free.pop()` schedule — satisfies the invariant, and every stored count
 is exactly in-degree + number of references the user holds -/
 theorem C15_reachable_inv (dv : List MVar) (m : MddMgr) (ext : Nat → Nat) (h : MReach dv m ext) :
-    MInv m ∧ RefExact m ext ∧ m.tbl.vars = dv :=
+    MInv m ∧ MRefExact m ext ∧ m.tbl.vars = dv :=
   h.inv
 
 /-- in every reachable state, equal functions ⇔ equal references -/
@@ -371,12 +396,12 @@ theorem r3 : MReach dv s3.2 (fun _ => 0) :=
   MReach.foa 0 [-1, 2, 1] (-4) _ r2 (by decide) e3
 theorem r4 : MReach dv s4.2 (fun _ => 0) :=
   MReach.ite 3 (-4) (-2) (-5) _ r3 (by decide) (by decide) (by decide) e4
-theorem r5 : MReach dv s5.2 (extInc (fun _ => 0) 3) :=
+theorem r5 : MReach dv s5.2 (mExtInc (fun _ => 0) 3) :=
   MReach.incref 3 _ r4 (by decide) e5
-theorem r6 : MReach dv s6.2 (extInc (fun _ => 0) 3) :=
+theorem r6 : MReach dv s6.2 (mExtInc (fun _ => 0) 3) :=
   MReach.apply "xor" .xor 3 (some (-4)) none 6 _ r5 (by decide) e6
 theorem rg1 : MReach dv g1.2 (fun _ => 0) := MReach.gc none _ r1 eg1
-theorem rh1 : MReach dv h1.2 (extInc (fun _ => 0) (-2)) := MReach.incref (-2) _ r1 (by decide) eh1
+theorem rh1 : MReach dv h1.2 (mExtInc (fun _ => 0) (-2)) := MReach.incref (-2) _ r1 (by decide) eh1
 
 /-- every variable has a value -/
 theorem hpos (m : MddMgr) (hv : m.tbl.vars = dv) : ∀ i, i < m.tbl.nvars → 0 < m.tbl.arity i := by
@@ -395,7 +420,7 @@ example (dv : List MVar) : MInv (MddMgr.new (some dv)) := MInv.init dv
 open C15Ex in
 /-- the hypotheses of the `find_or_add` / `ite` / `apply` / canonicity / structure theorems hold in
 a manager with shared sub-nodes, a complemented edge, a warm computed table and a held node -/
-example : MInv s6.2 ∧ RefExact s6.2 (extInc (fun _ => 0) 3) ∧
+example : MInv s6.2 ∧ MRefExact s6.2 (mExtInc (fun _ => 0) 3) ∧
     s6.2.tbl.node? 3 = some ⟨0, [2, 1, -1]⟩ ∧ s6.2.tbl.node? 4 = some ⟨0, [1, -2, -1]⟩ ∧
     s6.2.cache[iteKey 3 (-4) (-2)]? = some (-5) ∧ s6.2.ref[3]? = some 1 ∧
     (∀ i, i < s6.2.tbl.nvars → 0 < s6.2.tbl.arity i) :=
@@ -424,7 +449,7 @@ is re-used by the next `find_or_add`; the held node 2 stays -/
 example : MReach dv s1.2 (fun _ => 0) ∧ mCollectGarbage none s1.2 = (.ok (), g1.2) ∧
     (s1.2.tbl.node? 2).isSome = true ∧ g1.2.tbl.node? 2 = none ∧ g1.2.free = [2] ∧
     g2.2.tbl.node? 2 = some ⟨1, [1, -1]⟩ ∧ g2.2.free = [] ∧
-    MReach dv h1.2 (extInc (fun _ => 0) (-2)) ∧ mCollectGarbage none h1.2 = (.ok (), h2.2) ∧
+    MReach dv h1.2 (mExtInc (fun _ => 0) (-2)) ∧ mCollectGarbage none h1.2 = (.ok (), h2.2) ∧
     h2.2.tbl.node? 2 = some ⟨1, [1, -1]⟩ :=
   ⟨r1, eg1, by rfl, by rfl, by rfl, by rfl, by rfl, rh1, eh2, by rfl⟩
 
